@@ -12,10 +12,12 @@ EXTENDS Naturals, Sequences, TLC, Json
 VARIABLES transport, strict, kh, auth, emitted
 vars == <<transport, strict, kh, auth, emitted>>
 Init == /\ transport \in {"system", "standard"} /\ strict \in BOOLEAN
-        /\ kh \in {"has", "other", "empty", "none"}
+        \* "corrupt": another key plus a truncated line (the file cannot be loaded); "missing": the configured path does not exist
+        /\ kh \in {"has", "other", "empty", "none", "corrupt", "missing"}
         /\ auth \in {"password", "key", "both", "both-keyrejected"}
         /\ emitted = FALSE
-Connect == ~strict \/ kh = "has"
+\* a path that does not exist is refused when the option is applied, whatever the checking mode
+Connect == kh # "missing" /\ (~strict \/ kh = "has")
 \* error class when it must fail: the standard transport refuses a strict configuration without a file before dialling
 Class == IF Connect THEN "ok" ELSE IF transport = "standard" /\ kh = "none" THEN "badoption" ELSE "error"
 \* what the server's authentication callbacks must have seen on a successful connection
@@ -28,4 +30,5 @@ Spec == Init /\ [][Next]_vars
 \* the property's wording
 StrictMeansListed == (strict /\ Connect) => kh = "has"
 SkippedOnlyWhenDisabled == (kh # "has" /\ Connect) => ~strict
+UnreadableNeverTrusted == (strict /\ kh \in {"corrupt", "missing"}) => ~Connect
 =============================================================================
